@@ -206,7 +206,21 @@ fn check_infix(case: &Json, stats: &mut Stats) -> Verdict {
     let mut by_value = 0usize;
     let mut best_separation = 0usize;
     let key = ops.join(" ");
-    for vals in candidates(n, budget) {
+    // boundary first operands after the ordinary pool: a regrouping of `x * 4 / 2` or `x + 1 - 1` only
+    // shows when the intermediate result wraps around
+    let mut assignments: Vec<Vec<&'static str>> = vec![];
+    if ops.iter().all(|o| matches!(*o, "+" | "-" | "*" | "/" | "%" | "<<" | ">>" | "&" | "|" | "^" | "**")) {
+        for big in ["4611686018427387904", "9223372036854775807", "6148914691236517205"] {
+            for rest in [["4", "2", "3"], ["2", "4", "2"], ["3", "3", "2"], ["1", "1", "2"]] {
+                let mut v = vec![big];
+                v.extend(rest.iter().take(n - 1));
+                assignments.push(v);
+            }
+        }
+    }
+    let boundary = assignments.len();
+    assignments.extend(candidates(n, budget));
+    for (at, vals) in assignments.into_iter().enumerate() {
         let exp_text = expected.print(&vals, &ops);
         let exp_key = outcome_key(&exp_text);
         stats.eval();
@@ -296,7 +310,7 @@ fn check_infix(case: &Json, stats: &mut Stats) -> Verdict {
         if exp_key.starts_with("value") {
             by_value += 1;
         }
-        if confirmed >= want && best_separation == trees.len() - 1 && by_value > 0 {
+        if at >= boundary && confirmed >= want && best_separation == trees.len() - 1 && by_value > 0 {
             break;
         }
     }
